@@ -18,7 +18,8 @@ RULE = ('geometry recipe (gens/geo.py: rectangular with spacings 1..500 m, BFS p
         'two drawn columns, between two points of the enlarged box, and from 1000..10000 column sizes away through the smallest '
         'column) against per-column parametric clipping. Non-trivial = a point with a wrong guess or an aid other than none, or a line '
         'crossing >= 3 columns; distinct = case JSON.'
-        " Also: non-convex bounds polygons (a U shape around the mesh; the geometry's own boundary polygon on meshes up to 60 columns).")
+        " Also: non-convex bounds polygons (a U shape around the mesh; the geometry's own boundary polygon on meshes up to 60 columns)."
+        ' Rounds 8-10: a one-column companion geometry with its own quadtree searched before each judged search; a block looked up, its column removed with reduce(), the same point looked up again; lines from a column into a neighbour; hanging-node meshes.')
 ASSUMPTIONS = [
     'points closer than 1e-6 x (largest column diameter) + 1e-9 |coordinate| to any column side (or to the boundary of a bounds polygon) are not judged (counted)',
     'elevations closer than 1e-6 (relative to the model height, at least 1e-9) to a layer boundary or the column surface are not generated',
